@@ -302,6 +302,11 @@ func main() {
 	p.ID = prop
 	start := time.Now()
 	bin := buildEngine(p)
+	if os.Getenv("VERIF_PRINT_BIN") != "" {
+		// maintenance (tools/determinism.sh): build exactly as the check does and say where the engine is
+		fmt.Printf("%s %s\n", bin, p.Test)
+		os.Exit(0)
+	}
 	runDir := filepath.Join(root, ".build", "run", prop+altTag)
 	os.RemoveAll(runDir)
 	if err := os.MkdirAll(runDir, 0o755); err != nil {
